@@ -24,6 +24,11 @@ def validate_search_trace(ctx, tr, name, record_args=None):
         for b in bads:
             if b["prop"] == "FRAMEWORK":
                 raise ToolError("framework error in search trace %s line %d: %s" % (name, b["line"], b["check"]))
+            if b["prop"] == "DRIFT":
+                ctx.cov["model_drift"] += 1
+                d = ctx.cov.setdefault("drift_checks", {})
+                d[b["check"]] = d.get(b["check"], 0) + 1
+                continue
             if b["prop"] != ctx.prop:
                 ctx.other(b["prop"])
                 continue
